@@ -636,11 +636,11 @@ where
 
     fn add_byte_list_from(&mut self, from: Self::Size) -> Result<Self::Size, Self::Error> {
         let bytes = self.convert_basic_data_at_to_bytes(from)?;
-        self.push_to_data_block(BasicData::ByteList(bytes.len()))?;
+        let list_index = self.push_to_data_block(BasicData::ByteList(bytes.len()))?;
         for byte in bytes {
             self.push_to_data_block(BasicData::Byte(byte))?;
         }
-        Ok(from)
+        Ok(list_index)
     }
 
     fn add_symbol_from(&mut self, from: Self::Size) -> Result<Self::Size, Self::Error> {
